@@ -2,7 +2,8 @@ LEVEL = "other"
 MANIFEST = {
     "engine": "symrun",
     "category": "other",
-    "text": "Decided part of C16: for the real IncomprRandMeth code path the output equals the documented solenoidal-projection formula, every mode satisfies k.p(k)=0, the divergence of the REAL output term (mechanical differentiation with the T4 derivative table) is identically zero at every point, and the output is affine in the iid amplitudes with constant part u_mean*e_1 (so its mean over the amplitudes is the mean velocity along the first axis and zero otherwise) -- for all positions, wave vectors, amplitudes, variances and mean velocities (symbolic), dims 2 and 3, N = 1, 2 modes (the sum over modes is proved for all N in the kernel contract C15). NOT decided: the proportions of the component variances (integrals of the projector over the sphere against the sampled spectrum) -- a distributional statement over seeds, outside contracts; therefore category other. Added after the seeding rounds: the statement is checked at field level -- SRF.__call__ through Field.pre_pos / CovModel.isometrize with symbolic model rotation: divergence zero in the user's coordinates and mean along the user's x axis (defect F25 found and repaired). Also: vector fields stored on meshio meshes are that field, one vector per node / cell, in the requested axis order.",
+    "text": "Decided part of C16: for the real IncomprRandMeth code path the output equals the documented solenoidal-projection formula, every mode satisfies k.p(k)=0, the divergence of the REAL output term (mechanical differentiation with the T4 derivative table) is identically zero at every point, and the output is affine in the iid amplitudes with constant part u_mean*e_1 (so its mean over the amplitudes is the mean velocity along the first axis and zero otherwise) -- for all positions, wave vectors, amplitudes, variances and mean velocities (symbolic), dims 2 and 3, N = 1, 2 modes (the sum over modes is proved for all N in the kernel contract C15). NOT decided: the proportions of the component variances (integrals of the projector over the sphere against the sampled spectrum) -- a distributional statement over seeds, outside contracts; therefore category other. Added after the seeding rounds: the statement is checked at field level -- SRF.__call__ through Field.pre_pos / CovModel.isometrize with symbolic model rotation: divergence zero in the user's coordinates and mean along the user's x axis (defect F25 found and repaired). Also: vector fields stored on meshio meshes are that field, one vector per node / cell, in the requested axis order."
+            " Round 7: models with a nugget: add_nugget=False returns the pure divergence-free sum.",
     "level_note": "ghost RNG / kernel postcondition stubs as in C11; |k_j| > 0 is a precondition (radius 0 has probability 0 under the radius sampler: assumed); derivative table T4 (sin, cos, chain/product/quotient rules) applied mechanically to the extracted term; nugget on vector fields taken as written; variance proportions: not applicable to this technique.",
     "technique": "contract-based deductive verification: symbolic execution of the real Python methods against sidecar postconditions from the docstrings, VCs discharged by z3/cvc5 with instantiated axiom hints",
 }
